@@ -19,6 +19,7 @@ from __future__ import annotations
 
 import fractions
 import math
+import os
 import time as _time
 import z3
 
@@ -640,6 +641,70 @@ def _cvc5_check(smt2_text, timeout_ms):
     return {'sat': z3.sat, 'unsat': z3.unsat}.get(lines[0], z3.unknown)
 
 
+XCHECK_PER_SHARD = int(os.environ.get('VERIF_XCHECK', '4'))
+XCHECK_SOLVERS = (('cvc5', ['cvc5', '--incremental', '--strings-exp', '--tlimit-per=10000']),
+                  ('z3-4.8', ['/usr/bin/z3', '-t:10000']))
+
+
+def crosscheck(queries, notes):
+    """Solver diff: the sampled validity queries (each answered 'unsat' by the z3 5.x library the engine runs on)
+    are given, as one SMT-LIB2 batch with push/pop, to independent solver binaries.  'sat' from any of them is a
+    disagreement -> Inconclusive (the check never reports success on it); 'unknown', a time-out or an '(error' line
+    leave the query unconfirmed by that solver, which is counted in the evidence."""
+    import shutil
+    import subprocess
+    import tempfile
+    if not queries:
+        return
+    parts = ['(set-logic ALL)\n']
+    for _label, text in queries:
+        body = ''.join(ln + '\n' for ln in text.splitlines()
+                       if not ln.startswith(';') and not ln.startswith('(set-info'))
+        parts.append('(push 1)\n' + body + '(pop 1)\n')
+    notes['__xc_sampled'] = notes.get('__xc_sampled', 0) + len(queries)
+    fd, path = tempfile.mkstemp(suffix='.smt2', prefix='symx-xc-')
+    try:
+        with os.fdopen(fd, 'w') as f:
+            f.write(''.join(parts))
+        for name, cmd in XCHECK_SOLVERS:
+            exe = shutil.which(cmd[0])
+            if exe is None:
+                notes[f'__xc_{name}_unavailable'] = notes.get(f'__xc_{name}_unavailable', 0) + len(queries)
+                continue
+            try:
+                out = subprocess.run([exe] + cmd[1:] + [path], capture_output=True, text=True,
+                                     timeout=15 * len(queries) + 30).stdout
+            except Exception:
+                out = ''
+            lines = [ln.strip() for ln in out.splitlines() if ln.strip()]
+            if len(lines) != len(queries) or any(ln.startswith('(error') for ln in lines):
+                # cannot attribute answers to queries: everything unconfirmed - except a plain 'sat', see below
+                if any(ln == 'sat' for ln in lines):
+                    keep = os.path.join(os.path.dirname(os.path.dirname(os.path.abspath(__file__))), 'replays',
+                                        f'xcheck-{name}-{os.getpid()}.smt2.tmp')
+                    shutil.copy(path, keep)
+                    raise Inconclusive(f"solver cross-check: {name} answered 'sat' to a query z3 answered 'unsat' "
+                                       f"(batch kept in {keep})")
+                notes[f'__xc_{name}_error'] = notes.get(f'__xc_{name}_error', 0) + len(queries)
+                continue
+            for (label, _text), ln in zip(queries, lines):
+                if ln == 'unsat':
+                    notes[f'__xc_{name}_unsat'] = notes.get(f'__xc_{name}_unsat', 0) + 1
+                elif ln == 'sat':
+                    keep = os.path.join(os.path.dirname(os.path.dirname(os.path.abspath(__file__))), 'replays',
+                                        f'xcheck-{name}-{os.getpid()}.smt2.tmp')
+                    shutil.copy(path, keep)
+                    raise Inconclusive(f"solver cross-check: {name} answered 'sat' to the validity query of check "
+                                       f"{label!r} that z3 answered 'unsat' (batch kept in {keep})")
+                else:
+                    notes[f'__xc_{name}_unknown'] = notes.get(f'__xc_{name}_unknown', 0) + 1
+    finally:
+        try:
+            os.unlink(path)
+        except OSError:
+            pass
+
+
 class SymEnv:
     symbolic = True
     TWIN = False      # reachability twin: the first check site reached is replaced by False
@@ -901,9 +966,27 @@ class SymEnv:
         self.solver_decided += 1
         if self._check(z3.Not(z)) == z3.unsat:
             st.discharged += 1
+            self._xc_sample(label, z)
             return True
         self._violation(label, info, extra=z3.Not(z))
         return False
+
+    def _xc_sample(self, label, z):
+        """keep a sample of the validity queries answered 'unsat' for the solver cross-check at the end of
+        the shard: the first query of every check label, then every query whose ordinal is a power of two"""
+        st = self.stats
+        xq = st.__dict__.setdefault('_xq', [])
+        if len(xq) >= XCHECK_PER_SHARD:
+            return
+        seen = st.__dict__.setdefault('_xq_labels', set())
+        n = st.sym_checks
+        if label in seen and n & (n - 1):
+            return
+        seen.add(label)
+        s2 = z3.Solver()
+        s2.add(self.solver.assertions())
+        s2.add(z3.Not(z))
+        xq.append((label, s2.to_smt2()))
 
     def _violation(self, label, info, extra=None):
         model = self.model(extra)
@@ -1115,6 +1198,10 @@ def explore(scenario, params, *, max_paths=None, max_violations=3, deadline=None
             stats.decisions += len(env.trace)
             stats.max_depth = max(stats.max_depth, len(env.trace))
         pending.extend(env.pending)
+    xq = stats.__dict__.pop('_xq', [])
+    stats.__dict__.pop('_xq_labels', None)
+    if not SymEnv.TWIN:
+        crosscheck(xq, stats.notes)
     return {'stats': stats, 'violations': violations, 'samples': samples, 'complete': complete}
 
 
